@@ -286,6 +286,16 @@ def run(prop, report, tier, seed, replay=None):
                 if fid < len(subs):
                     eff['behs'][subs[fid]] = 'raise'
             eff['killed'] = sorted({subs[f] for f in script.killed_fids if f < len(subs)})
+            if obs['outcome'] == 'laberror':
+                # run_tasks raised at the first failure of a polling round: completions delivered by the executor in that
+                # same round after the failure were never processed by the coordinator, yet their workers had already
+                # saved their results (each worker saves on its own).  The run-level model has no term for them.
+                seen_fin = {e[1] for e in obs['events'] if e[0] == 'finish'}
+                exec_ok = {subs[e[1]] for op in script.ops if op[0] == 'wait' for e in op[1] if e[0] == 'finish' and e[2] and e[1] < len(subs)}
+                unseen = exec_ok - seen_fin
+                if unseen:
+                    obs['final_store'] = [t for t in obs.get('final_store', []) if t not in unseen]
+                    dist['l2_completions_unseen_at_raise'] += 1
             results.append((eff, obs))
             terms.append(S.emit_case(eff, obs))
             xterms.append(X.emit_xcase(script, c['max_workers']))
